@@ -139,7 +139,7 @@ impl Decoder for LinesCodec {
 
 }
 
-//@extract file=actix-codec/src/lines.rs item="fn try_into_utf8" ret=r props=C15 err_closures str_paths
+//@extract file=actix-codec/src/lines.rs item="fn try_into_utf8" ret=r props=C15,C13 err_closures str_paths
 //@spec
     ensures
         r.is_ok() <==> is_utf8(buf@),
